@@ -107,7 +107,7 @@ func base() (string, error) {
 			return baseDir, nil
 		}
 	}
-	d, err := os.MkdirTemp("/tmp", "verif-c15-")
+	d, err := os.MkdirTemp("", "verif-c15-")
 	if err != nil {
 		return "", err
 	}
